@@ -90,7 +90,11 @@ func damager(g *rig, b *Beh) func([]byte, Step) [][]byte {
 				return [][]byte{rawFrame("OPN", 'F', cat(le32(chanID), uaBytes([]byte(ua.SecurityPolicyURINone)), uaBytes(nil), uaBytes(nil), le32(1), le32(1), jb))}
 			default:
 				row.Class = st.Dmg
-				return garbageFrames(row, chanID, tokID, 1, rnd)[:1]
+				fr := garbageFrames(row, chanID, tokID, 1, rnd)
+				if len(fr) == 0 {
+					panic("no frame for inject class " + st.Dmg)
+				}
+				return fr[:1]
 			}
 		}
 		if b.Sweep != "" {
